@@ -38,14 +38,27 @@ func snapshotRecords(n *sim.Node) map[string]string {
 
 func freshId(t *rapid.T) string {
 	// the requesting peer chooses the id: degenerate values (all zero, all ones) are legal ids
+	if degenerateFor != t {
+		degenerateFor, degenerateUsed = t, map[string]bool{}
+	}
+	id := ""
 	switch rapid.IntRange(0, 11).Draw(t, "freshid-shape") {
 	case 0:
-		return strings.Repeat("00", 32)
+		id = strings.Repeat("00", 32)
 	case 1:
-		return strings.Repeat("ff", 32)
+		id = strings.Repeat("ff", 32)
+	}
+	if id != "" && !degenerateUsed[id] { // "fresh" within the case
+		degenerateUsed[id] = true
+		return id
 	}
 	return hex.EncodeToString(rapid.SliceOfN(rapid.Byte(), 32, 32).Draw(t, "freshid"))
 }
+
+var (
+	degenerateFor  *rapid.T
+	degenerateUsed map[string]bool
+)
 
 func mustSwapId(s string) *swap.SwapId {
 	id, err := swap.ParseSwapIdFromString(s)
